@@ -175,6 +175,11 @@ func PubKeyFromCertChain(chain []*x509.Certificate) (crypto.PubKey, error) {
 	if _, err := cert.Verify(x509.VerifyOptions{Roots: pool}); err != nil {
 		return nil, errors.Wrap(err, "certificate verification failed")
 	}
+	// cert.Verify trusts a certificate found in the root pool without checking
+	// its signature: verify explicitly that the certificate is self-signed.
+	if err := cert.CheckSignature(cert.SignatureAlgorithm, cert.RawTBSCertificate, cert.Signature); err != nil {
+		return nil, errors.Wrap(err, "certificate is not self-signed")
+	}
 
 	var sk signedKey
 	if _, err := asn1.Unmarshal(keyExt.Value, &sk); err != nil {
